@@ -160,6 +160,9 @@ type modelConf struct {
 	// Fields used by one goroutine at a time by construction (checked: every use must be in the
 	// dynamic extent of an owner of the half that is used).
 	Confined map[string]confinedField `json:"confined_fields"`
+	// Struct types guarded by a pseudo-mutex that is not an RWMutex field (type -> mutex name; a
+	// sync.Once field of that name makes X.once.Do(f) an exclusive section of it).
+	GuardedTypes map[string]string `json:"guarded_types"`
 	// All fields of these types are one location class.
 	LocAlias map[string]string `json:"loc_alias"`
 	// Dynamic calls through these fields are calls of standard-library functions.
